@@ -29,9 +29,10 @@ against the reference server).  Four groups of theorems:
   every violated sequencing rule ends the request with a protocol error, and a body that is
   returned can only be the server's body.
 
-All theorems about runs are stated for the configurations `Cfg.Ok`: client maximum exponent ≤ 7,
-and a remote that does BERT takes at least 1 KiB of payload (RFC 8323: BERT needs a
-Max-Message-Size above 1152).
+All theorems about runs are stated for the configurations `Cfg.Ok`: the exponent the upload
+starts with (`startSzx`: the remote's maximum, or the application's deprecated Block1 size hint
+`block1=(0, False, szx)`, `Cfg.hint1`) is ≤ 7, and when it is 7 (BERT) the remote takes at least
+1 KiB of payload (RFC 8323: BERT needs a Max-Message-Size above 1152).
 
 Only property theorems and non-vacuity examples live in this file; all quantifiers are over
 unbounded data (no bound on lengths or on the number of exchanges).
@@ -54,7 +55,7 @@ response (no Block2 option, or the application's size hint: block number 0) -/
 def block1Requests (cfg : Cfg) (resps : List Resp) : List Req := b1Reqs (runClient cfg resps).1
 
 theorem block1_cut (cfg : Cfg) (hcfg : cfg.Ok) (resps : List Resp) :
-    Cut cfg.payload (hintOpt cfg) 0 cfg.szx0 (block1Requests cfg resps) := by
+    Cut cfg.payload (hintOpt cfg) 0 (startSzx cfg) (block1Requests cfg resps) := by
   obtain ⟨cur, h1, h2⟩ := enterB1_of_inv (B1Inv.start hcfg)
   have := cut_go (B1Inv.start hcfg) h1 resps
   simp only [Nat.zero_mul] at this
@@ -80,14 +81,17 @@ theorem C05_block1_reassembles (cfg : Cfg) (hcfg : cfg.Ok) (resps : List Resp)
   have := (block1_cut cfg hcfg resps).reassemble_final (Nat.zero_le _) hfin
   simpa [reassemble] using this
 
-/-- **C05 (each block).** Every emitted Block1 request has an exponent ≤ the client maximum (≤ 7),
-starts inside the payload at `NUM × size` (`size` = 1024 for BERT), carries exactly
+/-- **C05 (each block).** Every emitted Block1 request has an exponent ≤ the client maximum (≤ 7;
+`startSzx`: the remote's maximum or the application's Block1 hint),
+starts inside the payload at `NUM × size` (`size` = 1024 for BERT) — or is block 0 of an EMPTY
+payload, which a request with the Block1 size hint and no body consists of —, carries exactly
 `payload[start, start+n)` for a block length `n` — ONE block (`BlkLen`: `n = 2^(szx+4)`), or for a
 BERT block (exponent 7) a positive whole number of KiB —, has the more flag set exactly when bytes
 remain behind it, and is exactly `n` bytes long unless it is the final one. -/
 theorem C05_block1_blocks (cfg : Cfg) (hcfg : cfg.Ok) (resps : List Resp) :
     ∀ r ∈ block1Requests cfg resps, ∀ b, r.block1 = some b →
-      b.szx ≤ cfg.szx0 ∧ b.szx ≤ 7 ∧ b.start < cfg.payload.length ∧
+      b.szx ≤ startSzx cfg ∧ b.szx ≤ 7 ∧
+      (b.start < cfg.payload.length ∨ (b.start = 0 ∧ cfg.payload.length = 0)) ∧
       ∃ n, BlkLen b.szx n ∧
         r.payload = (cfg.payload.drop b.start).take n ∧
         (b.more = true ↔ b.start + n < cfg.payload.length) ∧
@@ -422,7 +426,7 @@ theorem C05_ok_upload_complete (cfg : Cfg) (hcfg : cfg.Ok) (resps : List Resp) (
   obtain ⟨cur, h1, h2⟩ := enterB1_of_inv (B1Inv.start hcfg)
   unfold runClient at hok
   unfold block1Requests runClient
-  rw [show start cfg = .b1 { szx := cfg.szx0, cursor := 0 } cur from h2] at hok ⊢
+  rw [show start cfg = .b1 { szx := startSzx cfg, cursor := 0 } cur from h2] at hok ⊢
   exact ok_upload_go resps (B1Inv.start hcfg) h1 o hok
 
 /-- **C05 (request body intact whenever a response is returned).** `C05_block1_reassembles` with
@@ -523,7 +527,7 @@ theorem C05_block2_szx_below_hint (cfg : Cfg) (hcfg : cfg.Ok) (resps : List Resp
     ∀ b ∈ (runClient cfg resps).1.filterMap (·.block2), b.szx ≤ h := by
   obtain ⟨cur, _, h2⟩ := enterB1_of_inv (B1Inv.start hcfg)
   have hb := (b2_pairwise_bound_go (PhaseOk.start hcfg) resps).2
-    (by rw [show start cfg = .b1 { szx := cfg.szx0, cursor := 0 } cur from h2]; trivial)
+    (by rw [show start cfg = .b1 { szx := startSzx cfg, cursor := 0 } cur from h2]; trivial)
     ⟨0, false, h⟩ (by simp [hintOpt, hh])
   exact hb
 
@@ -712,6 +716,28 @@ example :
 example :
     (runClient { payload := [1, 2, 3], szx0 := 6, maxPayload := 1124 }
       [⟨95, some ⟨0, true, 2⟩, none, none, []⟩]).2 = .error .unexpectedBlock1 := by decide
+
+-- the deprecated Block1 size hint (round 4) -------------------------------------------------------
+
+/-- `block1=(0, False, 0)` preset by the application on a remote whose maximum is 6: the upload
+starts at exponent 0 (40 bytes: 16, 16, 8), and a request that fits into one block still goes out
+with a Block1 option -/
+example : Cfg.Ok { payload := List.range 40, szx0 := 6, maxPayload := 1124, hint1 := some 0 } :=
+  ⟨by decide, fun h => by revert h; decide⟩
+example :
+    ((runClient { payload := List.range 40, szx0 := 6, maxPayload := 1124, hint1 := some 0 }
+      [⟨95, some ⟨0, true, 0⟩, none, none, []⟩, ⟨95, some ⟨1, true, 0⟩, none, none, []⟩]).1.map
+        (fun r => (r.block1, r.payload.length)))
+    = [(some ⟨0, true, 0⟩, 16), (some ⟨1, true, 0⟩, 16), (some ⟨2, false, 0⟩, 8)] ∧
+    (runClient { payload := List.range 10, szx0 := 6, maxPayload := 1124, hint1 := some 2 } []).1
+    = [⟨some ⟨0, false, 2⟩, none, some 10, List.range 10⟩] := by decide
+/-- … also with an EMPTY body: block 0 of nothing, which the reference reassembly takes for the
+(empty) payload. (`_extract_block` refused it before the fix: `BadRequest`, nothing was sent.) -/
+example :
+    let run := runClient { payload := [], szx0 := 6, maxPayload := 1124, hint1 := some 2 }
+      [⟨68, some ⟨0, false, 2⟩, none, none, []⟩]
+    run = ([⟨some ⟨0, false, 2⟩, none, some 0, []⟩], .ok ⟨68, none, []⟩) ∧
+    reassemble run.1 = some [] := by decide
 
 -- BERT (round 4) ----------------------------------------------------------------------------------
 
